@@ -152,6 +152,20 @@ fn main() {
             // replay leak <cases.ndjson> <scratch> <first-index>
             let scratch = std::path::PathBuf::from(&args[3]);
             sos_verif_harness::init_audit(&scratch);
+            // the product's file logger with its default directives (what the CLI and the
+            // native bridge install): the log files are one more sink of the scan
+            let logs_dir = scratch.join("logs");
+            let _ = std::fs::create_dir_all(&logs_dir);
+            if std::env::var("VERIF_TRACE").is_err() {
+                std::env::remove_var("RUST_LOG");
+            }
+            if let Err(e) = sos_logs::Logger::new_dir(logs_dir.clone(), "saveoursecrets.log".to_string())
+                .init_file_subscriber(None)
+            {
+                eprintln!("harness error: file logger: {e:?}");
+                std::process::exit(3);
+            }
+            leak_world::set_logs_dir(logs_dir);
             let cases = read_lines(&args[2]);
             let first: usize = args.get(4).and_then(|s| s.parse().ok()).unwrap_or(0);
             let rt = tokio::runtime::Builder::new_multi_thread()
